@@ -1,1 +1,531 @@
 // Kani contract harnesses for /repo/arrow-select/src/filter.rs (child module: sees private items via super::)
+use super::*;
+#[path = "/verif/kani/support/spec.rs"]
+mod spec;
+use spec::*;
+use arrow_array::types::BinaryType;
+
+// ------------------------------------------------------------------------------------------------
+// model helpers (naive, written from the property statement)
+// ------------------------------------------------------------------------------------------------
+
+/// the predicate as a plain bool array: row i is *selected* iff its value bit is 1 and (when a
+/// validity bitmap is given) its validity bit is 1 — "null predicate = not selected"
+fn model<const N: usize>(vb: &[u8], voff: usize, nulls: Option<(&[u8], usize)>) -> [bool; N] {
+    let mut m = [false; N];
+    let mut i = 0;
+    while i < N {
+        m[i] = bit(vb, voff + i) && match nulls { Some((bm, boff)) => bit(bm, boff + i), None => true };
+        i += 1;
+    }
+    m
+}
+fn count_true<const N: usize>(m: &[bool; N]) -> usize {
+    let mut c = 0;
+    let mut i = 0;
+    while i < N {
+        if m[i] { c += 1 }
+        i += 1;
+    }
+    c
+}
+/// position of the k-th (0-based) selected row, N if there is none
+fn kth<const N: usize>(m: &[bool; N], k: usize) -> usize {
+    let mut seen = 0;
+    let mut i = 0;
+    while i < N {
+        if m[i] {
+            if seen == k { return i; }
+            seen += 1;
+        }
+        i += 1;
+    }
+    N
+}
+fn mk_pred(vb: &[u8], voff: usize, n: usize, nulls: Option<(&[u8], usize)>) -> BooleanArray {
+    let values = BooleanBuffer::new(Buffer::from_slice_ref(vb), voff, n);
+    let nulls = nulls.map(|(bm, boff)| NullBuffer::new(BooleanBuffer::new(Buffer::from_slice_ref(bm), boff, n)));
+    BooleanArray::new(values, nulls)
+}
+
+// ------------------------------------------------------------------------------------------------
+// layer 0
+// ------------------------------------------------------------------------------------------------
+
+// Contract (C03): IterationStrategy::default_strategy(len, count) for every len and every count <= len
+// (count is the number of selected rows):  None <=> len == 0 \/ count == 0;  All <=> count == len /\
+// count != 0;  otherwise one of the two *lazy* strategies (which one is a performance choice and not
+// part of the contract) — never a materialised strategy.
+// @unit name=default_strategy_contract props=C03 kind=complete fns=IterationStrategy::default_strategy
+#[kani::proof]
+fn default_strategy_contract() {
+    let len: usize = kani::any();
+    let count: usize = kani::any();
+    kani::assume(count <= len);
+    let s = IterationStrategy::default_strategy(len, count);
+    let none = matches!(s, IterationStrategy::None);
+    let all = matches!(s, IterationStrategy::All);
+    let lazy_s = matches!(s, IterationStrategy::SlicesIterator);
+    let lazy_i = matches!(s, IterationStrategy::IndexIterator);
+    assert!(none == (len == 0 || count == 0));
+    assert!(all == (count == len && count != 0));
+    assert!(none || all || lazy_s || lazy_i);
+    kani::cover!(none && len > 0);
+    kani::cover!(all);
+    kani::cover!(lazy_s && len < 100);
+    kani::cover!(lazy_i && len > (1usize << 40));
+    std::mem::forget(s);
+}
+
+// Contract (C03): prep_null_mask_filter(p) for a predicate with a validity bitmap (values and validity
+// windows at the bit offsets of the instance — concrete, because the kernel allocates its result): the result has no validity bitmap, the same length, and row i
+// is true exactly when p's row i is true and valid (a null predicate slot is not selected).
+// The two bit offsets of an instance always differ modulo 64: for equal offsets `&` on BooleanBuffers takes
+// a path built on <[u8]>::align_to::<u64>() whose prefix/suffix lengths depend on the allocation address;
+// CBMC then sees symbolic lengths flowing into collect() (measured: rows=3, offsets (0,0): timeout after
+// 1246 CPU-seconds, against 19 CPU-seconds for rows=9, offsets (2,7)). That path is not covered.
+macro_rules! prep_null_mask {
+    ($name:ident, $n:expr, $voff:expr, $boff:expr) => {
+        #[kani::proof]
+        #[kani::unwind(20)]
+        #[kani::stub(alloc::fmt::format, stub_format)]
+        fn $name() {
+            const N: usize = $n;
+            let vb: [u8; 3] = kani::any();
+            let bm: [u8; 3] = kani::any();
+            let (voff, boff): (usize, usize) = ($voff, $boff);
+            let p = mk_pred(&vb, voff, N, Some((&bm, boff)));
+            let m = model::<N>(&vb, voff, Some((&bm, boff)));
+            let r = prep_null_mask_filter(&p);
+            assert!(r.len() == N);
+            assert!(r.nulls().is_none());
+            let mut i = 0;
+            while i < N {
+                assert!(r.value(i) == m[i]);
+                i += 1;
+            }
+            assert!(r.true_count() == count_true(&m));
+            kani::cover!(p.null_count() > 0 && count_true(&m) > 0 && count_true(&m) < p.true_count() + 1);
+            kani::cover!(count_true(&m) == N);
+            std::mem::forget(r);
+            std::mem::forget(p);
+        }
+    };
+}
+// @unit name=prep_null_mask_n5 props=C03 kind=bounded bound=rows=5_bit_offsets=(0,3) fns=prep_null_mask_filter tier=thorough note=not_confirmed_at_checkpoint
+prep_null_mask!(prep_null_mask_n5, 5, 0, 3);
+// @unit name=prep_null_mask_n9_off props=C03 kind=bounded bound=rows=9_bit_offsets=(3,6) fns=prep_null_mask_filter
+prep_null_mask!(prep_null_mask_n9_off, 9, 3, 6);
+// @unit name=prep_null_mask_n16 props=C03 kind=bounded bound=rows=16_bit_offsets=(5,0) fns=prep_null_mask_filter tier=thorough note=not_confirmed_at_checkpoint
+prep_null_mask!(prep_null_mask_n16, 16, 5, 0);
+
+// Contract (C03): FilterBuilder::new(p).build() for a predicate of N rows (values/validity symbolic,
+// validity presence and bit offsets concrete per instance): count() == #(true /\ valid); the stored filter has N
+// rows, no nulls left, and row i set exactly when p selects row i; the strategy is None iff nothing is
+// selected, All iff everything is, and lazy otherwise (build never materialises).
+macro_rules! builder_count {
+    ($name:ident, $n:expr, $voff:expr, $boff:expr, $nulls:expr) => {
+        #[kani::proof]
+        #[kani::unwind(20)]
+        #[kani::stub(alloc::fmt::format, stub_format)]
+        fn $name() {
+            const N: usize = $n;
+            let vb: [u8; 3] = kani::any();
+            let bm: [u8; 3] = kani::any();
+            let (voff, boff): (usize, usize) = ($voff, $boff);
+            let with_nulls: bool = $nulls;
+            let nl = if with_nulls { Some((&bm[..], boff)) } else { None };
+            let p = mk_pred(&vb, voff, N, nl);
+            let m = model::<N>(&vb, voff, nl);
+            let c = count_true(&m);
+            let fp = FilterBuilder::new(&p).build();
+            assert!(fp.count() == c);
+            assert!(fp.filter.len() == N);
+            assert!(fp.filter.null_count() == 0);
+            let mut i = 0;
+            while i < N {
+                assert!(fp.filter.value(i) == m[i]);
+                i += 1;
+            }
+            assert!(matches!(fp.strategy, IterationStrategy::None) == (c == 0));
+            assert!(matches!(fp.strategy, IterationStrategy::All) == (c == N));
+            assert!(matches!(fp.strategy, IterationStrategy::None | IterationStrategy::All | IterationStrategy::SlicesIterator | IterationStrategy::IndexIterator));
+            kani::cover!(!with_nulls || (p.null_count() > 0 && c > 0 && c < N));
+            kani::cover!(c == N);
+            kani::cover!(c == 0 && (!with_nulls || p.null_count() > 0));
+            std::mem::forget(fp);
+            std::mem::forget(p);
+        }
+    };
+}
+// @unit name=builder_count_n3 props=C03 kind=bounded bound=rows=3_no_validity_bit_offset=0 fns=FilterBuilder::new,FilterBuilder::build,FilterPredicate::count
+builder_count!(builder_count_n3, 3, 0, 0, false);
+// @unit name=builder_count_n3_nulls props=C03 kind=bounded bound=rows=3_with_validity_bit_offsets=(0,5) fns=FilterBuilder::new,FilterBuilder::build,FilterPredicate::count,prep_null_mask_filter tier=thorough timeout=1200 mem=4 note=not_confirmed_at_checkpoint
+builder_count!(builder_count_n3_nulls, 3, 0, 5, true);
+// @unit name=builder_count_n9 props=C03 kind=bounded bound=rows=9_no_validity_bit_offset=2 fns=FilterBuilder::new,FilterBuilder::build,FilterPredicate::count tier=thorough timeout=1200 mem=4
+builder_count!(builder_count_n9, 9, 2, 7, false);
+// @unit name=builder_count_n9_nulls props=C03 kind=bounded bound=rows=9_with_validity_bit_offsets=(2,7) fns=FilterBuilder::new,FilterBuilder::build,FilterPredicate::count,prep_null_mask_filter tier=thorough timeout=1200 mem=4
+builder_count!(builder_count_n9_nulls, 9, 2, 7, true);
+// @unit name=builder_count_n16_nulls props=C03 kind=bounded bound=rows=16_with_validity_bit_offsets=(0,4) fns=FilterBuilder::new,FilterBuilder::build,FilterPredicate::count,prep_null_mask_filter tier=thorough timeout=1200 mem=4 note=not_confirmed_at_checkpoint
+builder_count!(builder_count_n16_nulls, 16, 0, 4, true);
+
+// Contract (C03): IndexIterator::new(mask, remaining = #set) yields exactly the set positions of the
+// mask in ascending order and then None; SlicesIterator yields exactly the maximal runs [start, end) of
+// set bits, in order (consecutive runs are separated by at least one clear bit, every bit inside a run
+// is set, every set bit is inside a run) and then None. Mask: N bits at the bit offset of the instance.
+macro_rules! index_iter {
+    ($name:ident, $n:expr, $voff:expr) => {
+        #[kani::proof]
+        #[kani::unwind(16)]
+        #[kani::stub(alloc::fmt::format, stub_format)]
+        fn $name() {
+            const N: usize = $n;
+            let vb: [u8; 3] = kani::any();
+            let voff: usize = $voff;
+            let p = mk_pred(&vb, voff, N, None);
+            let m = model::<N>(&vb, voff, None);
+            let c = count_true(&m);
+            let mut it = IndexIterator::new(&p, c);
+            assert!(it.size_hint() == (c, Some(c)));
+            // drain: at most N items, then None
+            let mut got = [usize::MAX; N];
+            let mut n = 0;
+            while n < N {
+                match it.next() {
+                    Some(i) => { got[n] = i; n += 1; }
+                    None => break,
+                }
+            }
+            assert!(n == c);
+            if n == N { assert!(it.next().is_none()); }
+            // the items are exactly the set positions, ascending (compared with the naive scan)
+            let mut k = 0;
+            let mut i = 0;
+            while i < N {
+                if m[i] {
+                    assert!(got[k] == i);
+                    k += 1;
+                }
+                i += 1;
+            }
+            kani::cover!(c == N);
+            kani::cover!(c == 0);
+            kani::cover!(c == 2 && m[0] && m[N - 1]);
+            std::mem::forget(it);
+            std::mem::forget(p);
+        }
+    };
+}
+// @unit name=index_iter_n6 props=C03 kind=bounded bound=mask=6_bits_bit_offset=0 fns=IndexIterator::new,IndexIterator::next
+index_iter!(index_iter_n6, 6, 0);
+// @unit name=index_iter_n6_off5 props=C03 kind=bounded bound=mask=6_bits_bit_offset=5_(crosses_a_byte) fns=IndexIterator::new,IndexIterator::next
+index_iter!(index_iter_n6_off5, 6, 5);
+// @unit name=index_iter_n10 props=C03 kind=bounded bound=mask=10_bits_bit_offset=3 fns=IndexIterator::new,IndexIterator::next tier=thorough timeout=900 mem=6 note=not_confirmed_at_checkpoint
+index_iter!(index_iter_n10, 10, 3);
+
+macro_rules! slices_iter {
+    ($name:ident, $n:expr, $voff:expr) => {
+        #[kani::proof]
+        #[kani::unwind(16)]
+        #[kani::stub(alloc::fmt::format, stub_format)]
+        fn $name() {
+            const N: usize = $n;
+            const R: usize = (N + 1) / 2;                 // a mask of N bits has at most ceil(N/2) runs
+            let vb: [u8; 3] = kani::any();
+            let voff: usize = $voff;
+            let p = mk_pred(&vb, voff, N, None);
+            let m = model::<N>(&vb, voff, None);
+            let mut it = SlicesIterator::new(&p);
+            // drain: at most R runs, then None
+            let mut got = [(usize::MAX, usize::MAX); R];
+            let mut n = 0;
+            let mut done = false;
+            while n < R {
+                match it.next() {
+                    Some(r) => { got[n] = r; n += 1; }
+                    None => { done = true; break; }
+                }
+            }
+            if !done { assert!(it.next().is_none()); }
+            // naive scan for maximal runs
+            let mut pos = 0;
+            let mut runs = 0;
+            while pos < N {
+                if m[pos] {
+                    let start = pos;
+                    while pos < N && m[pos] { pos += 1; }
+                    assert!(runs < n && got[runs] == (start, pos));
+                    runs += 1;
+                } else {
+                    pos += 1;
+                }
+            }
+            assert!(runs == n);
+            kani::cover!(runs == R);
+            kani::cover!(runs == 1 && m[0] && m[N - 1]);
+            kani::cover!(runs == 0);
+            std::mem::forget(it);
+            std::mem::forget(p);
+        }
+    };
+}
+// @unit name=slices_iter_n6 props=C03 kind=bounded bound=mask=6_bits_bit_offset=0 fns=SlicesIterator::new,SlicesIterator::next
+slices_iter!(slices_iter_n6, 6, 0);
+// @unit name=slices_iter_n6_off5 props=C03 kind=bounded bound=mask=6_bits_bit_offset=5_(crosses_a_byte) fns=SlicesIterator::new,SlicesIterator::next
+slices_iter!(slices_iter_n6_off5, 6, 5);
+// @unit name=slices_iter_n10 props=C03 kind=bounded bound=mask=10_bits_bit_offset=3 fns=SlicesIterator::new,SlicesIterator::next tier=thorough timeout=900 mem=6 note=not_confirmed_at_checkpoint
+slices_iter!(slices_iter_n10, 10, 3);
+
+// Contract (C03): FilterBuilder::optimize materialises exactly what the lazy iterator would yield:
+// for a mask of N bits with exactly K set (K concrete per instance, so that the allocation made by
+// `collect` has a concrete size), an IndexIterator strategy becomes Indices(v) with v = the K set
+// positions ascending; a SlicesIterator strategy becomes Slices(v) with v = the maximal runs in order;
+// count and filter are unchanged; None/All are left alone.
+macro_rules! optimize_indices {
+    ($name:ident, $n:expr, $k:expr) => {
+        #[kani::proof]
+        #[kani::unwind(12)]
+        #[kani::stub(alloc::fmt::format, stub_format)]
+        fn $name() {
+            const N: usize = $n;
+            const K: usize = $k;
+            let vb: [u8; 2] = kani::any();
+            let voff: usize = 3;
+            let m = model::<N>(&vb, voff, None);
+            kani::assume(count_true(&m) == K);
+            let p = mk_pred(&vb, voff, N, None);
+            let b = FilterBuilder::new_with_count(&p, K);
+            assert!(matches!(b.strategy, IterationStrategy::IndexIterator));   // 5K <= 4N for the instances below
+            let fp = b.optimize().build();
+            assert!(fp.count() == K);
+            match &fp.strategy {
+                IterationStrategy::Indices(v) => {
+                    assert!(v.len() == K);
+                    let mut k = 0;
+                    while k < K {
+                        assert!(v[k] == kth(&m, k));
+                        k += 1;
+                    }
+                }
+                _ => assert!(false),
+            }
+            let j: usize = kani::any();
+            kani::assume(j < N);
+            assert!(fp.filter.value(j) == m[j]);
+            kani::cover!(m[0] && m[N - 1]);
+            kani::cover!(!m[0]);
+            std::mem::forget(fp);
+            std::mem::forget(p);
+        }
+    };
+}
+// @unit name=optimize_indices_n6_k2 props=C03 kind=bounded bound=mask=6_bits_exactly_2_set_bit_offset=3 fns=FilterBuilder::optimize,FilterBuilder::new_with_count,IndexIterator::collect tier=thorough timeout=900 mem=6 note=not_confirmed_at_checkpoint
+optimize_indices!(optimize_indices_n6_k2, 6, 2);
+// @unit name=optimize_indices_n5_k4 props=C03 kind=bounded bound=mask=5_bits_exactly_4_set_bit_offset=3 fns=FilterBuilder::optimize,FilterBuilder::new_with_count,IndexIterator::collect tier=thorough timeout=900 mem=6 note=not_confirmed_at_checkpoint
+optimize_indices!(optimize_indices_n5_k4, 5, 4);
+
+// @unit name=optimize_slices_n8_k7 props=C03 kind=bounded bound=mask=8_bits_exactly_7_set_bit_offset=3 fns=FilterBuilder::optimize,FilterBuilder::new_with_count,SlicesIterator::next tier=thorough timeout=900 mem=6 note=not_confirmed_at_checkpoint
+#[kani::proof]
+#[kani::unwind(12)]
+#[kani::stub(alloc::fmt::format, stub_format)]
+fn optimize_slices_n8_k7() {
+    const N: usize = 8;
+    let vb: [u8; 2] = kani::any();
+    let voff: usize = 3;
+    let m = model::<N>(&vb, voff, None);
+    kani::assume(count_true(&m) == 7);
+    let hole = kth(&[!m[0], !m[1], !m[2], !m[3], !m[4], !m[5], !m[6], !m[7]], 0);
+    let p = mk_pred(&vb, voff, N, None);
+    let b = FilterBuilder::new_with_count(&p, 7);
+    assert!(matches!(b.strategy, IterationStrategy::SlicesIterator));          // 7/8 > 0.8
+    let fp = b.optimize().build();
+    assert!(fp.count() == 7);
+    match &fp.strategy {
+        IterationStrategy::Slices(v) => {
+            if hole == 0 { assert!(v.len() == 1 && v[0] == (1, 8)); }
+            else if hole == 7 { assert!(v.len() == 1 && v[0] == (0, 7)); }
+            else { assert!(v.len() == 2 && v[0] == (0, hole) && v[1] == (hole + 1, 8)); }
+        }
+        _ => assert!(false),
+    }
+    kani::cover!(hole == 0);
+    kani::cover!(hole == 3);
+    kani::cover!(hole == 7);
+    std::mem::forget(fp);
+    std::mem::forget(p);
+}
+
+// ------------------------------------------------------------------------------------------------
+// layer 1: the copying kernels, driven by a *materialised* strategy. The materialised strategy is the
+// contract stub of layer 0: by optimize_* above, Indices(v)/Slices(v) hold exactly the selected
+// positions / maximal runs of the mask; here v is an arbitrary sequence with that shape (ascending
+// in-range positions; ordered, disjoint, non-empty in-range runs) and the kernel must move exactly
+// those rows, in order. No bit iterator runs in these harnesses.
+// ------------------------------------------------------------------------------------------------
+
+/// a FilterPredicate over `n` rows with the given materialised strategy and count (the `filter` mask is
+/// only consulted for its length by the kernels under test when the strategy is materialised)
+fn materialised(n: usize, count: usize, strategy: IterationStrategy) -> FilterPredicate {
+    let vb = [0xFFu8; 2];
+    FilterPredicate { filter: mk_pred(&vb, 0, n, None), count, strategy }
+}
+/// K ascending positions < n
+fn any_positions<const K: usize>(n: usize) -> [usize; K] {
+    let v: [usize; K] = kani::any();
+    let mut i = 0;
+    while i < K {
+        kani::assume(v[i] < n);
+        if i > 0 { kani::assume(v[i - 1] < v[i]); }
+        i += 1;
+    }
+    v
+}
+
+// Contract (C03): filter_native::<i32>(values, predicate) with strategy Indices(v), |v| = K ascending
+// positions < N: the output buffer holds exactly K elements and element k == values[v[k]] (the rows the
+// predicate selects, in order, nothing else).
+macro_rules! native_indices {
+    ($name:ident, $n:expr, $k:expr) => {
+        #[kani::proof]
+        #[kani::unwind(8)]
+        #[kani::stub(alloc::fmt::format, stub_format)]
+        fn $name() {
+            const N: usize = $n;
+            const K: usize = $k;
+            let vals: [i32; N] = kani::any();
+            let v = any_positions::<K>(N);
+            let fp = materialised(N, K, IterationStrategy::Indices(v.to_vec()));
+            let out = filter_native::<i32>(&vals, &fp);
+            let o: &[i32] = out.typed_data();
+            assert!(o.len() == K);
+            let mut k = 0;
+            while k < K {
+                assert!(o[k] == vals[v[k]]);
+                k += 1;
+            }
+            kani::cover!(v[0] > 0);
+            kani::cover!(v[K - 1] == N - 1);
+            std::mem::forget(fp);
+        }
+    };
+}
+// @unit name=native_indices_n3_k2 props=C03 kind=bounded bound=rows=3_selected=2_strategy=Indices fns=filter_native tier=thorough timeout=900 mem=8
+native_indices!(native_indices_n3_k2, 3, 2);
+// @unit name=native_indices_n4_k2 props=C03 kind=bounded bound=rows=4_selected=2_strategy=Indices fns=filter_native tier=thorough timeout=900 mem=8 note=not_confirmed_at_checkpoint
+native_indices!(native_indices_n4_k2, 4, 2);
+
+// Contract (C03): filter_native::<i32> with strategy Slices([(s0,e0),(s1,e1)]) — two ordered, disjoint,
+// non-empty runs inside N rows whose total length is the predicate's count C (concrete) — outputs
+// exactly values[s0..e0] ++ values[s1..e1].
+macro_rules! native_slices {
+    ($name:ident, $n:expr, $c:expr) => {
+        #[kani::proof]
+        #[kani::unwind(8)]
+        #[kani::stub(alloc::fmt::format, stub_format)]
+        fn $name() {
+            const N: usize = $n;
+            const C: usize = $c;
+            let vals: [i32; N] = kani::any();
+            let (s0, e0, s1, e1): (usize, usize, usize, usize) = kani::any();
+            kani::assume(s0 < e0 && e0 < s1 && s1 < e1 && e1 <= N);
+            kani::assume((e0 - s0) + (e1 - s1) == C);
+            let fp = materialised(N, C, IterationStrategy::Slices(vec![(s0, e0), (s1, e1)]));
+            let out = filter_native::<i32>(&vals, &fp);
+            let o: &[i32] = out.typed_data();
+            assert!(o.len() == C);
+            let mut k = 0;
+            while k < C {
+                let src = if k < e0 - s0 { s0 + k } else { s1 + (k - (e0 - s0)) };
+                assert!(o[k] == vals[src]);
+                k += 1;
+            }
+            kani::cover!(s0 == 0 && e1 == N);
+            kani::cover!(s0 > 0);
+            std::mem::forget(fp);
+        }
+    };
+}
+// @unit name=native_slices_n5_c3 props=C03 kind=bounded bound=rows=5_selected=3_two_runs_(symbolic_boundaries)_strategy=Slices fns=filter_native tier=thorough timeout=900 mem=8 note=not_confirmed_at_checkpoint
+native_slices!(native_slices_n5_c3, 5, 3);
+
+// Contract (C03): filter_bits(bits, predicate) with strategy Indices(v), |v| = K ascending positions < N,
+// on a source bitmap of N bits at bit offset 6 (crossing a byte): output bit k == source bit v[k] for k < K.
+// FilterPredicate::filter_nulls(Some(validity)) with the same predicate: output row k is valid <=>
+// source row v[k] is valid; the result is None exactly when every selected row is valid (and then there
+// is nothing to track); the stored null count is exact.
+macro_rules! bits_indices {
+    ($name:ident, $n:expr, $k:expr) => {
+        #[kani::proof]
+        #[kani::unwind(10)]
+        #[kani::stub(alloc::fmt::format, stub_format)]
+        fn $name() {
+            const N: usize = $n;
+            const K: usize = $k;
+            let sb: [u8; 2] = kani::any();
+            let soff: usize = 6;
+            let src = BooleanBuffer::new(Buffer::from_slice_ref(&sb), soff, N);
+            let v = any_positions::<K>(N);
+            let fp = materialised(N, K, IterationStrategy::Indices(v.to_vec()));
+            let out = filter_bits(&src, &fp);
+            let mut k = 0;
+            while k < K {
+                assert!(bit(out.as_slice(), k) == bit(&sb, soff + v[k]));
+                k += 1;
+            }
+            let nulls = NullBuffer::new(src);
+            let fnulls = fp.filter_nulls(Some(&nulls));
+            let mut z = 0;
+            k = 0;
+            while k < K {
+                let valid = bit(&sb, soff + v[k]);
+                if !valid { z += 1 }
+                match &fnulls { Some(o) => assert!(o.is_valid(k) == valid), None => assert!(valid) }
+                k += 1;
+            }
+            match &fnulls {
+                Some(o) => { assert!(o.len() == K); assert!(o.null_count() == z && z > 0); }
+                None => assert!(z == 0),
+            }
+            kani::cover!(fnulls.is_some() && z < K);
+            kani::cover!(fnulls.is_none() && nulls.null_count() > 0);      // nulls exist but none selected
+            std::mem::forget(fp);
+        }
+    };
+}
+// @unit name=bits_indices_n4_k2 props=C03 kind=bounded bound=rows=4_selected=2_strategy=Indices_source_bit_offset=6 fns=filter_bits,FilterPredicate::filter_nulls tier=thorough timeout=900 mem=8
+bits_indices!(bits_indices_n4_k2, 4, 2);
+
+// (filter_bits with the Slices strategy: symbolic run boundaries exceeded 10 GB after 333 CPU-seconds; the variant
+// with concrete runs is pending confirmation and not part of this snapshot.)
+
+// Contract (C03, single attempt): FilterBytes::{extend_offsets_idx, extend_idx} — the core of filter_bytes
+// for the Indices strategy — on a Binary array of 3 rows (offsets symbolic monotone into 6 symbolic bytes)
+// and K = 2 ascending positions: dst_offsets == [0, len(v0), len(v0)+len(v1)] (prefix sums of the selected
+// lengths) and dst_values == value(v0) ++ value(v1).
+// @unit name=filter_bytes_idx_n3_k2 props=C03 kind=bounded bound=rows=3_value_bytes<=6_selected=2_strategy=Indices fns=FilterBytes::new,FilterBytes::extend_offsets_idx,FilterBytes::extend_idx tier=thorough timeout=900 mem=10 note=not_confirmed_at_checkpoint
+#[kani::proof]
+#[kani::unwind(9)]
+#[kani::stub(alloc::fmt::format, stub_format)]
+fn filter_bytes_idx_n3_k2() {
+    let offs: [i32; 4] = kani::any();
+    kani::assume(offs[0] >= 0 && offs[0] <= offs[1] && offs[1] <= offs[2] && offs[2] <= offs[3] && offs[3] <= 6);
+    let bytes: [u8; 6] = kani::any();
+    let ob = unsafe { OffsetBuffer::new_unchecked(ScalarBuffer::new(Buffer::from_slice_ref(&offs), 0, 4)) };
+    let a = unsafe { GenericByteArray::<BinaryType>::new_unchecked(ob, Buffer::from_slice_ref(&bytes), None) };
+    let v = any_positions::<2>(3);
+    let mut f = FilterBytes::new(2, &a);
+    f.extend_offsets_idx(v.iter().copied());
+    f.extend_idx(v.iter().copied());
+    let l0 = (offs[v[0] + 1] - offs[v[0]]) as usize;
+    let l1 = (offs[v[1] + 1] - offs[v[1]]) as usize;
+    assert!(f.dst_offsets.len() == 3);
+    assert!(f.dst_offsets[0] == 0 && f.dst_offsets[1] as usize == l0 && f.dst_offsets[2] as usize == l0 + l1);
+    assert!(f.dst_values.len() == l0 + l1);
+    let j: usize = kani::any();
+    if j < l0 { assert!(f.dst_values[j] == bytes[offs[v[0]] as usize + j]); }
+    if j < l1 { assert!(f.dst_values[l0 + j] == bytes[offs[v[1]] as usize + j]); }
+    kani::cover!(l0 == 2 && l1 == 3);
+    kani::cover!(l0 == 0 && l1 > 0 && v[0] == 1);
+    std::mem::forget(f);
+    std::mem::forget(a);
+}
